@@ -158,8 +158,77 @@ def exhaustive_cases(maxlen, caps=(1, 2, 3), keys=(0, 1, 2)):
                 yield cap, list(ops)
 
 
-def case_line(cap, ops, dump=True):
-    return "heap cap=%d ops=%s%s" % (cap, ",".join(ops), " dump=1" if dump else "")
+KEY_SCALES = [-60, -40, -20, 20, 40, 900]
+KEY_OFFSETS = [2 ** 52, -(2 ** 52)]
+
+
+def case_line(cap, ops, ks=0, dump=True):
+    """`ks=<e>`: the harness hands ldexp(K, e) to the real heap for every integer key K of the line (exact doubles:
+    |K| < 2^53); the model line never carries it - K -> ldexp(K, e) is an order isomorphism and the heap only
+    compares and copies keys, so the model stays on Int keys and the implementation's keys are mapped back
+    (`unscale`) before any comparison"""
+    return "heap cap=%d ops=%s%s%s" % (cap, ",".join(ops), " ks=%d" % ks if ks else "", " dump=1" if dump else "")
+
+
+def norm_case(c):
+    return (c[0], c[1], c[2] if len(c) > 2 else 0)
+
+
+def unscale_key(tok, ks):
+    """exact inverse of the harness' key scaling on a vh::num token (`m:e` = m*2^e, or a plain integer)"""
+    if ":" in tok:
+        m, e = tok.split(":")
+        m, e = int(m), int(e)
+    else:
+        try:
+            m, e = int(tok), 0
+        except ValueError:
+            return "?" + tok
+    e -= ks
+    if e >= 0:
+        return str(m << e)
+    if m % (1 << -e) == 0:
+        return str(m >> -e)
+    return "?" + tok            # not an integer multiple of 2^ks: cannot be a key the history supplied
+
+
+def unscale(io, ks):
+    """the implementation's line with every key mapped back to the integer K of the case line"""
+    if ks == 0 or io.startswith("abort:"):
+        return io
+    seg = io.split("|")
+    toks = []
+    for t in seg[1].split():
+        body, _, suffix = t.partition("/")
+        suffix = "/" + suffix if suffix else ""
+        if body.startswith("x") and not body.startswith("x-1:"):
+            parts = body[1:].split(":")
+            body = "x%s:%s:%s" % (parts[0], unscale_key(":".join(parts[1:-1]), ks), parts[-1])
+        elif body.startswith("g") and body != "g-":
+            body = "g" + unscale_key(body[1:], ks)
+        toks.append(body + suffix)
+    seg[1] = " " + " ".join(toks) + " " if toks else seg[1]
+    if len(seg) >= 4:
+        ns = []
+        for t in seg[3].split():
+            i, p_, r, m, k = t.split(":", 4)
+            ns.append("%s:%s:%s:%s:%s" % (i, p_, r, m, unscale_key(k, ks)))
+        if ns:
+            seg[3] = " " + " ".join(ns)
+    return "|".join(seg)
+
+
+def shift_keys(ops, off):
+    """the same history with every key moved by `off` (order preserved): keys of size 2^52"""
+    if not off:
+        return ops
+    out = []
+    for o in ops:
+        p_ = o.split(":")
+        if p_[0] in ("i", "d"):
+            p_[2] = str(int(p_[2]) + off)
+        out.append(":".join(p_))
+    return out
 
 
 def out_tokens(io):
@@ -231,8 +300,8 @@ class Guide:
     moves are chosen from the structure it reports (parent, rank, mark, key of every stored node)"""
     BIG = 10 ** 6
 
-    def __init__(self, sess, cap, stats):
-        self.sess, self.cap, self.stats = sess, cap, stats
+    def __init__(self, sess, cap, stats, ks=0):
+        self.sess, self.cap, self.stats, self.ks = sess, cap, stats, ks
         self.ops, self.nodes = [], {}
         self.lo, self.hi = 0, self.BIG
         self.dead = False
@@ -245,7 +314,7 @@ class Guide:
             return not self.dead
         head = ("heap cap=%d" % self.cap) if not self.ops else "more"
         self.ops += ops
-        out = self.sess.ask("%s ops=%s trace=1 dump=1" % (head, ",".join(ops)))
+        out = self.sess.ask("%s ops=%s%s trace=1 dump=1" % (head, ",".join(ops), " ks=%d" % self.ks if self.ks else ""))
         if out is None:
             self.dead = True
             return False
@@ -277,9 +346,9 @@ class Guide:
             if size[v] < st["tree_min_size"].get(r, 1 << 30):
                 st["tree_min_size"][r] = size[v]
             if r != len(kids.get(v, [])) and "rank_violation" not in st:
-                st["rank_violation"] = {"ops": list(self.ops), "node": v, "rank": r, "children": len(kids.get(v, []))}
+                st["rank_violation"] = {"ops": list(self.ops), "ks": self.ks, "node": v, "rank": r, "children": len(kids.get(v, []))}
             if FIB[min(r + 2, 79)] > size[v] and "degree_violation" not in st:
-                st["degree_violation"] = {"ops": list(self.ops), "node": v, "rank": r, "size": size[v]}
+                st["degree_violation"] = {"ops": list(self.ops), "ks": self.ks, "node": v, "rank": r, "size": size[v]}
 
     # -- structure
     def children(self):
@@ -395,7 +464,8 @@ def run_policy(g, P, r, deadline, max_rounds):
 
 def random_policy(r):
     return {"prune": r.choice(PRUNE_RULES[:5]), "order": r.below(2), "grow": r.choice([1, 1, 2, 3]), "fill": r.below(2),
-            "spare": r.choice([0, 0, 2, 5]), "noise": r.choice([0, 0, 5, 20])}
+            "spare": r.choice([0, 0, 2, 5]), "noise": r.choice([0, 0, 5, 20]),
+            "ks": r.choice(KEY_SCALES) if r.chance(1, 3) else 0}
 
 
 def mutate_policy(r, P):
@@ -425,7 +495,9 @@ def guided_search(ctx, binary, caps, budget_s, slice_s):
     t_end = time.time() + budget_s
     stats = {}
     aborted, best_hist = [], {}
-    pool = [(cap, P) for P in FIXED_POLICIES for cap in caps]
+    # the deterministic recipes on every capacity, every third one at a non-zero key scale
+    pool = [(cap, dict(P, ks=KEY_SCALES[(i + j) % len(KEY_SCALES)] if (i + j) % 3 == 0 else 0))
+            for i, P in enumerate(FIXED_POLICIES) for j, cap in enumerate(caps)]
     pool = r.shuffle(pool)
     scored = []
     runs = 0
@@ -444,7 +516,7 @@ def guided_search(ctx, binary, caps, budget_s, slice_s):
         st = stats.setdefault(cap, {"steps": 0, "dumps": 0, "nodes_checked": 0, "heap_min_nodes": {}, "tree_min_size": {},
                                     "runs": 0, "aborts": 0})
         sess = Session(binary)
-        g = Guide(sess, cap, st)
+        g = Guide(sess, cap, st, P.get("ks", 0))
         run_policy(g, P, r, min(t_end, time.time() + slice_s), 4 * cap + 200)
         sess.close()
         runs += 1
@@ -507,13 +579,14 @@ def guided_phase(ctx, binary):
         if st.get("dn") is not None and maxrank >= st["dn"] and not st["aborts"]:
             _, ops, _ = best[cap]
             ctx.fail("rank>=Dn", "a node of the real heap reached rank %d >= Dn = %d at capacity %d: consolidate() indexed A[Dn]"
-                     % (maxrank, st["dn"], cap), case=case_line(cap, ops), detail={"stats": report[str(cap)]})
+                     % (maxrank, st["dn"], cap), case=case_line(cap, ops, best[cap][2].get("ks", 0)),
+                     detail={"stats": report[str(cap)]})
     ctx.extra["guided_search"] = {"per_capacity": report, "degree_bound_fib(rank+2)<=size_measured_on_real_heap": bound_ok,
                                   "policies": "textbook thin-tree recipe, cut-all-two-levels-down, delete-deep-leaves (deterministic), "
                                               "then hill-climbing mutations of (capacity, policy)"}
     # histories that made the real heap abort: failing inputs (judge shrinks the first of each signature)
     for cap, ops, P in sorted(aborted, key=lambda a: len(a[1])):
-        judge(ctx, binary, [(cap, ops)], "guided-abort")
+        judge(ctx, binary, [(cap, ops, P.get("ks", 0))], "guided-abort")
     # a violated degree bound without an abort: the real heap left the proved invariant
     if not aborted:
         for cap in sorted(stats):
@@ -523,30 +596,34 @@ def guided_phase(ctx, binary):
                 if not v:
                     continue
 
-                def failing(sub, cap=cap):
-                    out = ctx.run_impl_cases(binary, [case_line(cap, sub)])
+                def failing(sub, cap=cap, ks=v.get("ks", 0)):
+                    out = ctx.run_impl_cases(binary, [case_line(cap, sub, ks)])
                     return bool(out) and not out[0].startswith("abort:") and bool(degree_violations(out[0]))
                 small = vlib.ddmin(v["ops"], failing, max_tests=120, budget_s=15.0)
                 ctx.broken("corr:" + key, "invariant Inv on the real heap (rank = children, size >= fib(rank+2))",
-                           "the real heap leaves the invariant proved for the model: " + what % v, case=case_line(cap, small),
+                           "the real heap leaves the invariant proved for the model: " + what % v,
+                           case=case_line(cap, small, v.get("ks", 0)),
                            detail={k: v[k] for k in v if k != "ops"})
                 break
     # the best history per capacity goes through the full model / implementation / specification comparison
-    judge(ctx, binary, [(cap, best[cap][1]) for cap in sorted(best) if not any(a[0] == cap for a in aborted)], "guided-best")
+    judge(ctx, binary, [(cap, best[cap][1], best[cap][2].get("ks", 0)) for cap in sorted(best)
+                        if not any(a[0] == cap for a in aborted)], "guided-best")
 
 
 # ----------------------------------------------------------------------------- correspondence
 def judge(ctx, binary, cases, label):
-    """cases: list of (cap, ops).  Runs implementation, model and the Lean spec checker."""
-    lines = [case_line(c, o) for c, o in cases]
-    impl = ctx.run_impl_cases(binary, lines)
-    rc, model, err = ctx.run_model("model_c16", lines)
+    """cases: list of (cap, ops[, ks]).  Runs implementation (keys scaled by 2^ks), model and the Lean spec checker
+    (both on the integer keys; the implementation's keys are mapped back first)."""
+    cases = [norm_case(c) for c in cases]
+    lines = [case_line(c, o, ks) for c, o, ks in cases]
+    impl = [unscale(io, ks) for io, (c, o, ks) in zip(ctx.run_impl_cases(binary, lines), cases)]
+    rc, model, err = ctx.run_model("model_c16", [case_line(c, o) for c, o, ks in cases])
     if rc != 0 or len(model) != len(lines):
         ctx.broken("model-driver", "model_c16", "model driver failed: rc=%s %s" % (rc, err[-300:]))
         return
     # spec checker on the implementation's observations
     spec_lines = []
-    for (cap, ops), io in zip(cases, impl):
+    for (cap, ops, ks), io in zip(cases, impl):
         if io.startswith("abort:"):
             spec_lines.append("spec cap=%d ops=%s outs=" % (cap, ",".join(ops[:0])))
         else:
@@ -559,12 +636,13 @@ def judge(ctx, binary, cases, label):
         return
     # an answered (non-aborted) history must carry exactly one output per operation
     spec = [("spec-reject@length" if (not io.startswith("abort:") and len(out_tokens(io)) != len(ops)) else so)
-            for (cap, ops), io, so in zip(cases, impl, spec)]
-    for (cap, ops), line, io, mo, so in zip(cases, lines, impl, model, spec):
+            for (cap, ops, ks), io, so in zip(cases, impl, spec)]
+    for (cap, ops, ks), line, io, mo, so in zip(cases, lines, impl, model, spec):
         nontrivial = ("x" in ops) and any(o.startswith("i:") for o in ops)
         ctx.count(line, nontrivial)
         ctx.stat("gen:" + label)
         ctx.stat("cap<=8" if cap <= 8 else "cap<=64" if cap <= 64 else "cap>64")
+        ctx.stat("key-scale:%d" % ks)
         ctx.cov["traces_validated_against_impl"] += 1
         if io.startswith("abort:"):
             sig = io[len("abort:"):]
@@ -572,9 +650,9 @@ def judge(ctx, binary, cases, label):
             small = ops
             if ("abort:" + sig) not in ctx.extra.setdefault("shrunk_signatures", []):
                 ctx.extra["shrunk_signatures"].append("abort:" + sig)
-                small = shrink(ctx, binary, cap, ops, lambda out: out.startswith("abort:"))
+                small = shrink(ctx, binary, cap, ops, lambda out: out.startswith("abort:"), ks)
             ctx.fail("abort:" + sig, "fibonacci_heap touches memory outside its arrays / aborts (%s) on a %d-operation history, capacity %d"
-                     % (sig, len(small), cap), case=case_line(cap, small),
+                     % (sig, len(small), cap), case=case_line(cap, small, ks),
                      detail={"impl": io, "model": mo, "stderr": getattr(ctx, "last_abort_stderr", "")[-1500:]})
             continue
         if so != "spec-ok":
@@ -585,9 +663,9 @@ def judge(ctx, binary, cases, label):
             small = ops
             if "spec-reject" not in ctx.extra.setdefault("shrunk_signatures", []):
                 ctx.extra["shrunk_signatures"].append("spec-reject")
-                small = shrink_spec(ctx, binary, cap, ops)
+                small = shrink_spec(ctx, binary, cap, ops, ks)
             ctx.fail("spec-reject", "fibonacci_heap output is not an indexed-min-queue behaviour (%s)" % so,
-                     case=case_line(cap, small), detail={"impl": io, "model": mo, "spec": so})
+                     case=case_line(cap, small, ks), detail={"impl": io, "model": mo, "spec": so})
             continue
         if io != mo:
             ctx.stat("fidelity-mismatch")
@@ -605,19 +683,61 @@ def judge(ctx, binary, cases, label):
             ctx.sample({"case": line, "impl": io, "model": mo, "spec": so})
 
 
-def shrink(ctx, binary, cap, ops, pred):
+def large_leg(ctx, binary, n):
+    """the property's own scale (capacity 10^4, 10^5 operations): implementation (ASan) against the specification
+    checker only - the list-based model is not run at this size"""
+    import hashlib
+    r = ctx.rng.fork()
+    cap, length = 10 ** 4, 10 ** 5
+    cases = []
+    for j in range(n):
+        name, g = GENS[j % len(GENS)]
+        ops = g(r.fork(), cap, length, r.choice([1000, 10 ** 6, 10 ** 9]))
+        ks = r.choice(KEY_SCALES) if j % 2 else 0
+        off = r.choice(KEY_OFFSETS) if j % 3 == 2 else 0
+        cases.append((name, shift_keys(ops, off), ks))
+    lines = [case_line(cap, o, ks, dump=False) + " alarm=120" for _, o, ks in cases]
+    impl = [unscale(io, ks) for io, (_, o, ks) in zip(ctx.run_impl_cases(binary, lines, timeout=1800), cases)]
+    spec_lines = ["spec cap=%d ops=%s outs=%s" % (cap, ",".join(o), "" if io.startswith("abort:") else ",".join(out_tokens(io)))
+                  for (_, o, ks), io in zip(cases, impl)]
+    rc, spec, err = ctx.run_model("model_c16", spec_lines)
+    if rc != 0 or len(spec) != len(spec_lines):
+        ctx.broken("model-driver", "model_c16 (spec checker)", "spec checker run failed on the large leg: rc=%s %s" % (rc, err[-300:]))
+        return
+    longest = 0
+    for (name, ops, ks), line, io, so in zip(cases, lines, impl, spec):
+        ctx.count("large:" + hashlib.sha256(line.encode()).hexdigest()[:16], True)
+        ctx.stat("gen:large-" + name)
+        ctx.stat("cap=10^4")
+        ctx.stat("key-scale:%d" % ks)
+        longest = max(longest, len(ops))
+        if io.startswith("abort:"):
+            small = shrink(ctx, binary, cap, ops, lambda out: out.startswith("abort:"), ks)
+            ctx.fail(io, "fibonacci_heap aborts (%s) at capacity 10^4 on a %d-operation history" % (io, len(small)),
+                     case=case_line(cap, small, ks), detail={"impl": io})
+        elif so != "spec-ok" or len(out_tokens(io)) != len(ops):
+            small = shrink_spec(ctx, binary, cap, ops, ks)
+            ctx.fail("spec-reject", "fibonacci_heap output is not an indexed-min-queue behaviour (%s) at capacity 10^4" % so,
+                     case=case_line(cap, small, ks), detail={"spec": so})
+        else:
+            ctx.stat("large-spec-ok")
+    ctx.extra["large_leg"] = {"histories": len(cases), "capacity": cap, "longest_history": longest,
+                              "compared": "implementation under ASan vs specification checker (no model run)"}
+
+
+def shrink(ctx, binary, cap, ops, pred, ks=0):
     def failing(sub):
-        out = ctx.run_impl_cases(binary, [case_line(cap, sub)])
+        out = ctx.run_impl_cases(binary, [case_line(cap, sub, ks)])
         return bool(out) and pred(out[0])
     return vlib.ddmin(ops, failing, max_tests=400, budget_s=40.0)
 
 
-def shrink_spec(ctx, binary, cap, ops):
+def shrink_spec(ctx, binary, cap, ops, ks=0):
     def failing(sub):
-        out = ctx.run_impl_cases(binary, [case_line(cap, sub)])
+        out = ctx.run_impl_cases(binary, [case_line(cap, sub, ks)])
         if not out or out[0].startswith("abort:"):
             return False
-        outs = out_tokens(out[0])
+        outs = out_tokens(unscale(out[0], ks))
         rc, sp, _ = ctx.run_model("model_c16", ["spec cap=%d ops=%s outs=%s" % (cap, ",".join(sub), ",".join(outs))])
         return bool(sp) and sp[0] != "spec-ok"
     return vlib.ddmin(ops, failing, max_tests=150)
@@ -654,7 +774,7 @@ def correspond(ctx):
                 l = l.strip()
                 if l.startswith("heap "):
                     fs = dict(t.split("=", 1) for t in l.split()[1:])
-                    corpus.append((int(fs["cap"]), fs["ops"].split(",")))
+                    corpus.append((int(fs["cap"]), fs["ops"].split(","), int(fs.get("ks", "0"))))
     if corpus:
         judge(ctx, binary, corpus, "corpus")
     guided_phase(ctx, binary)
@@ -667,10 +787,13 @@ def correspond(ctx):
         length = r.range(1, 60) if r.chance(1, 2) else r.range(60, 300 if quick else 1500)
         keymax = r.choice([2, 3, 5, 10, 1000])
         ops = g(r.fork(), cap, length, keymax)
+        # a third of the cases at a non-zero key scale (near-ties 2^-60 apart, keys of size 2^940), a sixth on keys of size 2^52
+        ks = r.choice(KEY_SCALES) if r.chance(1, 3) else 0
+        off = r.choice(KEY_OFFSETS) if r.chance(1, 6) else 0
         if ops:
-            batch.append((name, cap, ops))
+            batch.append((name, cap, shift_keys(ops, off), ks))
     for name, _ in GENS:
-        sub = [(c, o) for n, c, o in batch if n == name]
+        sub = [(c, o, k) for n, c, o, k in batch if n == name]
         for i in range(0, len(sub), 1000):
             judge(ctx, binary, sub[i:i + 1000], name)
     if not quick:
@@ -678,15 +801,22 @@ def correspond(ctx):
         for i in range(0, len(ex), 5000):
             judge(ctx, binary, ex[i:i + 5000], "exhaustive")
         ctx.extra["exhaustive_small"] = {"histories": len(ex), "capacities": "1..3 (len<=4), 4..5 (len<=3)", "keys": [0, 1, 2]}
+    large_leg(ctx, binary, 2 if quick else 24)
     dn_sweep(ctx, binary, list(range(1, 2050 if quick else 5000)) + ([] if quick else [2 ** k + d for k in range(13, 21) for d in (-1, 0, 1)]))
-    ctx.cov["rule"] = ("histories from 4 generators (uniform, guard-exercising, Dijkstra-shaped, thin-tree adversarial) over "
-                       "capacities 1..%d, lengths 1..%d, key alphabets 2..1000, compared on outputs AND structure (parent, rank, mark, "
-                       "key of every stored node, num_trees); plus an implementation-guided search (deterministic thin-tree recipes and "
-                       "hill-climbing over policies, steered by the structure read from the real heap under ASan) whose best history "
-                       "per capacity is compared the same way; non-trivial = contains an insert and an extract_min; distinct by case text"
-                       % (64 if quick else 400, 300 if quick else 1500))
+    ctx.cov["rule"] = ("model-vs-implementation-vs-specification leg: histories from 4 generators (uniform, guard-exercising, "
+                       "Dijkstra-shaped, thin-tree adversarial) over capacities 1..%d and lengths 1..%d (the property text asks for "
+                       "capacities up to 10^4 and lengths up to 10^5: that scale is covered by the implementation-vs-specification leg "
+                       "only, %d histories at capacity 10^4 / length up to 10^5, and by the theorems, which are unbounded), key "
+                       "alphabets 2..1000; a third of the histories hand the real heap keys scaled by 2^e, e in %s (near-ties 2^-60 apart, "
+                       "keys of size 2^940), a sixth use keys of size 2^52 (all exact doubles, mapped back to the integer keys of the "
+                       "model before comparing); compared on outputs AND structure (parent, rank, mark, key of every stored node, "
+                       "num_trees); plus an implementation-guided search (deterministic thin-tree recipes and hill-climbing over "
+                       "policies, steered by the structure read from the real heap under ASan) whose best history per capacity is "
+                       "compared the same way; non-trivial = contains an insert and an extract_min; distinct by case text"
+                       % (64 if quick else 400, 300 if quick else 1500, 2 if quick else 24, KEY_SCALES))
     ctx.assumptions += [
-        "keys are non-NaN; Int keys in the model stand for any totally ordered key set (the heap only compares and copies keys)",
+        "keys are non-NaN; Int keys in the model stand for any totally ordered key set (the heap only compares and copies keys); "
+        "the real heap is driven with doubles ldexp(K, e) for the integer keys K (order isomorphic, exact), not only with integers",
         "memory safety of the compiled code is observed by ASan/UBSan on the generated histories; the theorem no_oob is about the model's index d < Dn",
         "the degree bound fib(rank+2) <= subtree size and rank = number of children are additionally MEASURED on the real heap for every node after every step of the guided search (evidence: guided_search)",
     ]
@@ -699,7 +829,7 @@ def replay_case(ctx, body):
         ctx.broken("harness-build", "harness c16_heap.cpp", "harness does not compile against /repo: " + log[-800:])
         return
     fs = dict(t.split("=", 1) for t in body["case"].split()[1:])
-    judge(ctx, binary, [(int(fs["cap"]), fs["ops"].split(","))], "replay")
+    judge(ctx, binary, [(int(fs["cap"]), fs["ops"].split(","), int(fs.get("ks", "0")))], "replay")
     ctx.cov["rule"] = "replay of one recorded history"
     print("replayed:", body["case"][:200])
     print("evidence/C16.json holds the observation; exit status 1 = the violation reproduces")
